@@ -109,6 +109,8 @@ func (s *sumT) known(k string) {
 }
 
 func (s *sumT) finish(start time.Time, out string) {
+	s.mu.Lock()
+	defer s.mu.Unlock()
 	s.Distinct = len(s.distinct)
 	s.WallSeconds = time.Since(start).Seconds()
 	sort.Strings(s.Known)
